@@ -20,8 +20,13 @@ pub enum H {
     EnvRun(u8),
     /// message + run_spawned only (run still open)
     RunSpawnOnly,
+    /// message + run_spawned + the run's REAL session frames (started / output / ended), but no
+    /// run_ended yet: a run that has produced its reply and is still open on the thread
+    RunOpenReal,
     /// run_ended for the oldest run that is still open
     RunEndOldest,
+    /// the same with reason "provider_error" (a run that produced output and then failed)
+    RunEndOldestFailed,
     Side,
     Cursor(u8),
     Rotate,
@@ -53,7 +58,9 @@ pub fn name(op: &H) -> String {
         H::Run => "run".into(),
         H::EnvRun(k) => format!("env_run{k}"),
         H::RunSpawnOnly => "run_spawn_only".into(),
+        H::RunOpenReal => "run_open_real".into(),
         H::RunEndOldest => "run_end_oldest".into(),
+        H::RunEndOldestFailed => "run_end_oldest_failed".into(),
         H::Side => "side".into(),
         H::Cursor(k) => format!("cursor{k}"),
         H::Rotate => "rotate".into(),
@@ -147,12 +154,28 @@ pub fn apply(fx: &mut Fx, t: &mut Track, op: &H) -> Value {
                 t.last_sess = session_id;
                 Ok(json!({"message_id": message_id}))
             }
-            H::RunEndOldest => {
+            H::RunOpenReal => {
+                let content = format!("q{n}");
+                let message_id = store.append_message(&thread, "u".into(), "o".into(), content.clone())?;
+                let handle = fx.engine.create_session();
+                let session_id = handle.session_id.clone();
+                store.append_run_spawned(&thread, &message_id, &session_id, "u".into(), "o".into())?;
+                // the session runs unlinked: it logs its own frames (incl. the reply) and leaves the
+                // thread's run open
+                let fut = fx.engine.verif_session_future(handle, content, None, None);
+                fx.rt.block_on(fut);
+                t.open_runs.push((message_id.clone(), session_id.clone()));
+                t.last_msg = Some(message_id.clone());
+                t.last_sess = session_id;
+                Ok(json!({"message_id": message_id}))
+            }
+            H::RunEndOldest | H::RunEndOldestFailed => {
                 if t.open_runs.is_empty() {
                     return Ok(json!({"skipped": "no open run"}));
                 }
                 let (m, s) = t.open_runs.remove(0);
-                let id = store.append_run_ended(&thread, &m, &s, "completed".into(), "u".into(), "o".into())?;
+                let reason = if matches!(op, H::RunEndOldestFailed) { "provider_error" } else { "completed" };
+                let id = store.append_run_ended(&thread, &m, &s, reason.into(), "u".into(), "o".into())?;
                 Ok(json!({"id": id}))
             }
             H::Side => {
